@@ -141,6 +141,14 @@ impl<T> Future for SyncFut<T> {
 /// Apply a harmful mutation to a resolved response. Returns false if the
 /// mutation had nothing to act on.
 fn harm(r: &mut Resp, h: Harm, world: &World) -> bool {
+    harm_in(r, h, world, false)
+}
+
+/// `infra`: the response answers one of the validator's own DS / DNSKEY
+/// queries. Of a negative one (no DS here: an insecure delegation or a name
+/// that is no zone cut) the validator reads the NSEC / NSEC3 records only, so
+/// only harm done to those counts.
+fn harm_in(r: &mut Resp, h: Harm, world: &World, infra: bool) -> bool {
     use domain::rdata::ZoneRecordData as D;
     let is_sig = |rec: &super::dnssec_world::SRec| rec.rtype() == Rtype::RRSIG;
     match h {
@@ -175,6 +183,7 @@ fn harm(r: &mut Resp, h: Harm, world: &World) -> bool {
                     D::Rrsig(s) => Some((lname(rec.owner()), s.type_covered())),
                     _ => None,
                 })
+                .filter(|(_, t)| sec_is_answer || !infra || matches!(*t, Rtype::NSEC | Rtype::NSEC3))
                 .collect();
             if covered.is_empty() {
                 return false;
@@ -208,6 +217,9 @@ fn harm(r: &mut Resp, h: Harm, world: &World) -> bool {
             true
         }
         Harm::ReplaceRdata => {
+            if infra && !r.answer.iter().any(|rec| !is_sig(rec)) {
+                return false; // (the SOA of a negative DS response is not looked at)
+            }
             let sec = if r.answer.iter().any(|rec| !is_sig(rec)) { &mut r.answer } else { &mut r.authority };
             for rec in sec.iter_mut() {
                 let new = match rec.data() {
@@ -236,7 +248,7 @@ fn harm(r: &mut Resp, h: Harm, world: &World) -> bool {
         Harm::FlipSignature | Harm::WrongSigner | Harm::WrongKeyTag | Harm::ExtendSigValidity => {
             let in_answer = r.answer.iter().any(is_sig);
             let sec = if in_answer { &mut r.answer } else { &mut r.authority };
-            let idxs: Vec<usize> = sec.iter().enumerate().filter(|(_, rec)| is_sig(rec)).map(|(i, _)| i).collect();
+            let idxs: Vec<usize> = sec.iter().enumerate().filter(|(_, rec)| is_sig(rec) && (in_answer || !infra || matches!(rec.data(), D::Rrsig(s) if matches!(s.type_covered(), Rtype::NSEC | Rtype::NSEC3)))).map(|(i, _)| i).collect();
             if idxs.is_empty() {
                 return false;
             }
@@ -305,6 +317,7 @@ impl SendRequest<RequestMessage<Vec<u8>>> for Upstream {
                 (g.world, g.infra_harm.take())
             };
             let w = &worlds()[world];
+            ev!("upstream asked {} {}", qname, qtype);
             let lat = sim::draw("up.latency_ms", 5);
             if lat > 0 {
                 tokio::time::sleep(Duration::from_millis(lat)).await;
@@ -332,7 +345,7 @@ impl SendRequest<RequestMessage<Vec<u8>>> for Upstream {
                         r = Resp { rcode_nx: true, ..Default::default() };
                         applied = true;
                     }
-                    _ => applied = harm(&mut r, h, w),
+                    _ => applied = harm_in(&mut r, h, w, true),
                 }
                 if applied {
                     st.lock().unwrap().infra_harm_applied += 1;
@@ -404,7 +417,7 @@ impl Scenario for ValidatorScn {
     }
 }
 
-const QUERIES: [(&str, Rtype, &str); 31] = [
+const QUERIES: [(&str, Rtype, &str); 35] = [
     ("www.zone.tld.", Rtype::A, "positive"),
     ("www.zone.tld.", Rtype::TXT, "positive"),
     ("zone.tld.", Rtype::SOA, "positive"),
@@ -434,6 +447,10 @@ const QUERIES: [(&str, Rtype, &str); 31] = [
     ("host.unsigned.tld.", Rtype::A, "insecure"),
     ("nope.unsigned.tld.", Rtype::A, "insecure-nxdomain"),
     ("x.la.unsigned.tld.", Rtype::A, "insecure-nxdomain"),
+    ("www.z1.ent.tld.", Rtype::A, "positive-deep"),
+    ("www.z2.ent.tld.", Rtype::A, "positive-deep"),
+    ("nope.z2.ent.tld.", Rtype::A, "nxdomain"),
+    ("host.ed.tld.", Rtype::A, "insecure"),
     ("plain.tld.", Rtype::TXT, "positive-tld"),
     ("other.", Rtype::TXT, "positive-root"),
 ];
@@ -453,10 +470,17 @@ async fn run(_tier: Tier) {
             ..Default::default()
         })),
     };
+    // The trust anchor: the root's DNSKEY, its DS, or both.
     let mut ta = TrustAnchors::empty();
-    if let Err(e) = ta.add_u8(w.trust_anchor_text.as_bytes()) {
-        sim::harness_error(format!("trust anchor: {:?}", e));
-        return;
+    let ta_kind = sim::draw("cfg.trust_anchor", 4);
+    for text in [(ta_kind != 1).then_some(&w.trust_anchor_text), (ta_kind == 1 || ta_kind == 2).then_some(&w.trust_anchor_ds_text)].into_iter().flatten() {
+        if let Err(e) = ta.add_u8(text.as_bytes()) {
+            sim::harness_error(format!("trust anchor: {:?}", e));
+            return;
+        }
+    }
+    if ta_kind == 1 || ta_kind == 2 {
+        sim::stat("probe.trust_anchor_given_as_ds");
     }
     // Tuning knobs per run: tiny caches make the miss / eviction paths run,
     // short validities make cached nodes expire between queries.
